@@ -104,7 +104,7 @@ func init() {
 					t.Do(In{Nn(size), S(big + ",X,P10,S10,B,R20,L,P3000,X,B,D100,L"), S("100:0"), S("600000:0"), S("50:0"), S("3000:0")}, true)
 				}
 			}
-			for i := 0; i < t.Scale(400, 20000); i++ {
+			for i := 0; i < t.Scale(400, 4000); i++ {
 				in := In{Nn([]int{0, 4096, 100, 8192, 70000}[t.R.Intn(5)])}
 				var frs []string
 				total := 0
@@ -128,7 +128,7 @@ func init() {
 					total += 600000
 				}
 				var ops []string
-				for j, n := 0, 3+t.R.Intn(t.Scale(40, 120)); j < n; j++ {
+				for j, n := 0, 3+t.R.Intn(t.Scale(40, 80)); j < n; j++ {
 					sz := sizes[t.R.Intn(len(sizes))]
 					if t.R.Intn(2) == 0 {
 						sz = t.R.Intn(40)
